@@ -138,6 +138,8 @@ structure St (F : Type) where
   tracing : Bool := false
   -- Analyzer: symbol accesses in program order (symbol, line, token index, kind)
   accesses : List (Str × Nat × Nat × Access) := []
+  /-- number of token-cursor reads so far (the `verif-hooks` counter) -/
+  reads : Nat := 0
 
 inductive Res (F : Type) (α : Type) where
   | ok (a : α) (s : St F)
